@@ -51,4 +51,7 @@ mod harnesses {
         kani::cover!(have1 && have2 && serial != m.next.wrapping_sub(1));
         assert!(m.remove(serial) == Some(9) && m.get_mut(serial).is_none());
     }
+
+    #[cfg(verif_replay)]
+    include!("/verif/.cache/replay/serial_map__verif__harnesses.rs");
 }
